@@ -335,3 +335,48 @@ def start_on_grid(sx, B):
     sx.claim(bool(np.array_equal(mol.nodes[first]["position"], grid[pick])), "first residue sits on the chosen start-grid point",
              lambda: "node %r at %r, grid point %r" % (first, mol.nodes[first]["position"], grid[pick]))
     sx.claim(all(np.all(np.isfinite(mol.nodes[n]["position"])) for n in mol.nodes), "all residues positioned")
+
+
+@condition("C05.start_check",
+           anchors=["polyply.src.random_walk:RandomWalk._random_walk"],
+           must_cover=["start accepted", "start rejected"],
+           stubs=["fulfill_geometrical_constraints, RandomWalk._is_overlap -> symbolic booleans (their content is C07.geometry / C05.overlap)",
+                  "RandomWalk.update_positions -> always succeeds with a sentinel"],
+           bounds={"quick": dict(mol_idxs=[0, 1, 2]), "thorough": dict(mol_idxs=[0, 1, 2])})
+def start_check(sx, B):
+    """Real RandomWalk._random_walk for the first, second and third molecule of a system: the first residue of a molecule without
+    coordinates is put on the start point iff the start point satisfies the geometric restraints and does not overlap (both outcomes
+    symbolic), whatever the index of the molecule; otherwise nothing is placed and the attempt is reported as failed."""
+    mol_idx = sx.sel("molecule_index", B["mol_idxs"])
+    geom_ok = sx.bool("start_satisfies_restraints")
+    overlaps = sx.bool("start_overlaps")
+    metas = [meta_from_shape("path2", "M%d" % i) for i in range(3)]
+    top = make_topology(metas)
+    eng = NonBondEngine.from_topology(metas, top, np.array([10.0, 10.0, 10.0]))
+    tested = []
+
+    class RW(RandomWalk):
+        def _is_overlap(self, point, node, nrexcl=1):
+            tested.append(("overlap", np.array(point), node))
+            return bool(overlaps)
+
+        def update_positions(self, vector_bundle, current_node, prev_node):
+            self.nonbond_matrix.add_positions(sentinel(3), self.mol_idx, current_node, start=False)
+            return True
+    start = np.array([2.0, 3.0, 4.0])
+    walker = RW(mol_idx, eng, start=start, maxdim=eng.boxsize, vector_sphere=np.array([[1.0, 0.0, 0.0]]))
+    with patched(rw, fulfill_geometrical_constraints=lambda p, d: bool(geom_ok)):
+        walker.run_molecule(metas[mol_idx])
+    first = next(iter(metas[mol_idx].nodes))
+    p = eng.get_point(mol_idx, first)
+    if geom_ok and not overlaps:
+        sx.cover("start accepted")
+        sx.claim(bool(np.array_equal(p, start)) and walker.success is True, "the first residue sits on the start point")
+    else:
+        sx.cover("start rejected")
+        sx.claim(bool(np.all(np.isinf(p))) and walker.success is False, "a start point that violates a restraint or overlaps is not used",
+                 lambda: "molecule %d: first residue at %r, success %r" % (mol_idx, p, walker.success))
+        sx.claim(all(np.all(np.isinf(eng.get_point(mol_idx, n))) for n in metas[mol_idx].nodes), "nothing is placed after a rejected start")
+    if geom_ok:
+        sx.claim(len(tested) >= 1 and bool(np.array_equal(tested[0][1], start)), "the overlap test is applied to the start point of every molecule",
+                 lambda: "molecule %d: %r" % (mol_idx, tested))
